@@ -12,6 +12,8 @@ package main
 import (
 	"fmt"
 	"math/rand"
+	"os"
+	"path/filepath"
 	"sort"
 	"strings"
 	"sync"
@@ -336,6 +338,37 @@ try { $m->ti(5); echo "P3 accepted\n"; } catch (\Throwable $e) { echo "P3 reject
 	}
 }
 
+// regressionInputs re-runs the stdout witnesses of the (former) findings on every run: a
+// witness whose output differs from the output the property prescribes is a violation
+// under the key family of the defect it once demonstrated.
+func (d *driver) regressionInputs() {
+	ran := 0
+	for _, w := range []struct{ file, key string }{
+		{"generic-first-lookup-wins", "shared-decl/witness"},
+		{"generic-method-param-unsubstituted", "unbound-param/witness"},
+	} {
+		src, err1 := os.ReadFile(filepath.Join(d.e.Verif, "findings", "C19", w.file+".php"))
+		want, err2 := os.ReadFile(filepath.Join(d.e.Verif, "findings", "C19", w.file+".expected"))
+		if err1 != nil || err2 != nil {
+			continue
+		}
+		r := d.e.RunScript(string(src), procTimeout)
+		if r.TimedOut {
+			d.e.Inconclusive("watchdog fired on regression input " + w.file)
+			continue
+		}
+		ran++
+		d.mu.Lock()
+		d.evals++
+		d.byPhase["regression-inputs"]++
+		d.mu.Unlock()
+		if r.Stdout != string(want) {
+			d.e.Violation(w.key, fmt.Sprintf("regression input findings/C19/%s.php prints %q, the property prescribes %q", w.file, r.Stdout, string(want)), "php", src)
+		}
+	}
+	d.e.Extra("regression_inputs_run", ran)
+}
+
 // paramRejectPrefix is the calibrated common prefix of parameter-type rejections ("" = unknown).
 var paramRejectPrefix string
 
@@ -347,6 +380,7 @@ func main() {
 	d := &driver{e: e, best: map[string]found{}, byPhase: map[string]int{}, sampled: map[string]int{}, raceAttr: map[string]int{}, raceOther: map[string]int{}}
 
 	d.calibrate()
+	d.regressionInputs()
 	core := alphabet{classes: []int{cBox, cPair}, nVals: nValsCore}
 	coreAll := alphabet{classes: []int{cBox, cPair}, nVals: nValsCore, withChecks: true}
 	boxOnly := alphabet{classes: []int{cBox}, nVals: nValsCore}
